@@ -234,6 +234,7 @@ func init() {
 		Batches: []batchSpec{
 			{Name: "l1", World: "workconn", Weight: 4},
 			{Name: "l2", World: "workconn", Weight: 4, Park: 0.01, Gos: 0.02},
+			{Name: "l2-heavy", World: "workconn", Weight: 2, Park: 0.06, Gos: 0.1},
 		},
 		Stub: []string{"network (simnet)", "scripted clients (independent protocol implementation)", "users", "clock"},
 		Rule: "one run = one scripted client (pool size, work-connection behaviour good/late/never/dead drawn) with 1-16 simultaneous users on one accept path (direct, group, tcpmux vhost, stcp visitor), then a surplus-offer flood and a session end with work connections arriving around teardown; distinct = distinct event-log hash",
